@@ -767,3 +767,31 @@ def next_child_one_account(ctx, rid):
     run.instance(rid, {"fn": "LMDBBackend::next_child", "obligation": "counter read, path built and counter saved for one and the same account", "operands": [(k, sorted(map(str, p_))) for k, p_ in accts]}, held=held)
     if not held:
         run.finding(Finding(rid, nc, "next_child reads / derives / bumps under different accounts (the counter of one account, the path of another): a receive into another account is keyed at an index that account has used already and overwrites its record", site=f.loc()))
+
+
+def cli_id_not_narrowed(ctx, rid, fn_names):
+    """The log id the user types is the id the command acts on: in the CLI argument parsers the value parsed as u64
+    is not cut down with `as u32` (4294967302 would name entry 6)."""
+    run = ctx.run
+    n = 0
+    for name in fn_names:
+        fid = "grin_wallet::cmd::wallet_args::" + name
+        f = ctx.fn(fid)
+        if f is None:
+            run.error("%s: %s not found" % (rid, fid))
+            continue
+        n += 1
+        bad = []
+        for b, bb in enumerate(f.bbs):
+            for st in bb["s"]:
+                if st["k"] != "a" or st["r"]["k"] != "cast" or st["r"].get("ck") != "IntToInt" or st["r"].get("ty") not in ("u32", "u16", "u8"):
+                    continue
+                pl = vf.op_place(st["r"]["o"])
+                if pl is None or f.locals[pl[0]]["ty"] != "u64":
+                    continue
+                if vf.has_call(vf.origins(f, st["r"]["o"]) | vf.producers(f, st["r"]["o"]), "*wallet_args::parse_u64"):
+                    bad.append(b)
+        run.instance(rid, {"fn": pp.short(fid), "obligation": "the parsed id is not cut down to 32 bits", "narrowing casts of a parsed u64": len(bad)}, held=not bad)
+        if bad:
+            run.finding(Finding(rid, fid, "the id typed on the command line is parsed as u64 and cut down with `as u32`: an id that does not exist (4294967296 + n) silently names entry n", site=c.site_of(f, bad[0])))
+    return n
